@@ -10,6 +10,7 @@
 //	  q<k><m><t>  tell the requester to issue request k from inside its handler; m = per-call mode override
 //	              (a AllowAll, s StashNonReentrant, o Off, d none); t = t register Then at once, n do not
 //	  m<k>        ordinary user message k
+//	  a<k>        another actor sends Request(requester, msg k): an AsyncRequest envelope carrying an ordinary message
 //	  r<k>        the responder replies to request k (again = a duplicate reply)
 //	  x<k>        the timeout of request k fires (the call the timer goroutine makes)
 //	  c<k>        RequestCall.Cancel() of request k
@@ -55,6 +56,8 @@ type reqCmd struct {
 	then bool
 }
 type reqPayload struct{ K int }
+type askPayload struct{ K int }
+type askCmd struct{ k int }
 type replyPayload struct{ K int }
 
 const waitLimit = 30 * time.Second
@@ -106,6 +109,20 @@ func (r *responder) Receive(ctx *actor.ReceiveContext) {
 			r.replies[m.K] = f
 			r.mu.Unlock()
 		}
+	default:
+	}
+}
+
+// asker: a peer with reentrancy enabled that sends a Request to the requester when told to
+type asker struct{ target *actor.PID }
+
+func (a *asker) PreStart(*actor.Context) error { return nil }
+func (a *asker) PostStop(*actor.Context) error { return nil }
+func (a *asker) Receive(ctx *actor.ReceiveContext) {
+	switch m := ctx.Message().(type) {
+	case *askCmd:
+		ctx.Request(a.target, &askPayload{K: m.k})
+		_ = actor.VerifC16TakeErr(ctx) // a dead target is not the asker's failure
 	default:
 	}
 }
@@ -190,6 +207,9 @@ func (q *requester) Receive(ctx *actor.ReceiveContext) {
 		q.self = ctx.Self()
 	case *userMsg:
 		q.add(fmt.Sprintf("m%d", m.k))
+	case *askPayload:
+		q.add(fmt.Sprintf("a%d", m.K))
+		ctx.Response(&replyPayload{K: m.K})
 	case *holdMsg:
 		q.add("H")
 		if q.permits.Load() > 0 {
@@ -312,6 +332,15 @@ func handle(line string) string {
 		_ = rp.Shutdown(ctx)
 		return "spawn-error " + err.Error()
 	}
+	ask := &asker{target: qp}
+	ap, err := sys.Spawn(ctx, fmt.Sprintf("ask%d", caseNo), ask, actor.WithLongLived(),
+		actor.WithReentrancy(reentrancy.New(reentrancy.WithMode(reentrancy.AllowAll))))
+	if err != nil {
+		_ = qp.Shutdown(ctx)
+		_ = rp.Shutdown(ctx)
+		return "spawn-error " + err.Error()
+	}
+	defer func() { _ = ap.Shutdown(ctx) }()
 	stopped := false
 	defer func() {
 		// release a parked handler before tearing down
@@ -327,7 +356,7 @@ func handle(line string) string {
 	}()
 	settle := func() {
 		spin("settle", func() bool {
-			return actor.VerifC16Idle(rp) && actor.VerifC16GrainIdle(sys, gid) && (actor.VerifC16Idle(qp) || req.holding.Load())
+			return actor.VerifC16Idle(rp) && actor.VerifC16Idle(ap) && actor.VerifC16GrainIdle(sys, gid) && (actor.VerifC16Idle(qp) || req.holding.Load())
 		})
 	}
 	settle()
@@ -348,6 +377,8 @@ func handle(line string) string {
 			if err := actor.Tell(ctx, qp, &userMsg{k: k}); err != nil {
 				res = "dead"
 			}
+		case 'a':
+			_ = actor.Tell(ctx, ap, &askCmd{k: k})
 		case 'H':
 			if err := actor.Tell(ctx, qp, &holdMsg{}); err != nil {
 				res = "dead"
@@ -570,7 +601,7 @@ func handleGrain(cfg []string, ops []string) string {
 	}
 	seenQ := map[byte]bool{}
 	for _, op := range ops {
-		if !validOp(op) {
+		if !validOp(op) || op[0] == 'a' {
 			return "bad-case"
 		}
 		if op[0] == 'q' {
@@ -751,7 +782,7 @@ func validOp(op string) bool {
 		return true
 	case len(op) == 4 && op[0] == 'q' && dig(1) && strings.ContainsRune("asod", rune(op[2])) && (op[3] == 't' || op[3] == 'n'):
 		return true
-	case len(op) == 2 && strings.ContainsRune("mrxcT", rune(op[0])) && dig(1):
+	case len(op) == 2 && strings.ContainsRune("marxcT", rune(op[0])) && dig(1):
 		return true
 	}
 	return false
